@@ -21,7 +21,8 @@ Line(G) ==
         doms |-> {<<c[1], c[2], TransportNodes(G, c[1], c[2])>> : c \in DomainConfigs(G)}]
   ELSE IF Mode = "id"
   THEN [g |-> [n |-> G.n, d |-> G.d, b |-> G.b],
-        qs |-> {<<p[1], p[2], {}, ~IsFail(IDRef(G, p[1], p[2]))>> : p \in Queries(G)}]
+        \* 5th field: how often line 7 fires on one recursion path (ID.tla L7Depth)
+        qs |-> {<<p[1], p[2], {}, ~IsFail(IDRef(G, p[1], p[2])), L7Depth(p[2], p[1], G)>> : p \in Queries(G)}]
   ELSE [g |-> [n |-> G.n, d |-> G.d, b |-> G.b],
         qs |-> {<<p[1], p[2], p[3], ~IsFail(IDCf(G, p[1], p[2], p[3]))>> : p \in CQueries(G)}]
 Run == /\ phase = "chosen" /\ phase' = "done" /\ g' = g
